@@ -40,6 +40,15 @@ def main():
                         {"note": "exception escaped the per-call guards"}, {"exception": repr(e)[:300], "where": "%s:%d" % (lib[-1].filename, lib[-1].lineno)})
             rc = ctx.finish()
             sys.exit(rc if rc else 1)
+        inside_case = [f for f in tb if os.path.join("mbt", "props") in f.filename or f.filename.endswith(("histories.py", "tracedrv.py", "cacheprobe.py"))]
+        if inside_case and ctx.full is not None and isinstance(e, (IndexError, TypeError, KeyError, ValueError, AttributeError, ZeroDivisionError)):
+            # a case was being replayed and the harness could not even read the library's answer (wrong nesting, wrong length, a
+            # missing attribute): on the unchanged tree every answer is readable, so the answer itself deviates
+            traceback.print_exc()
+            ctx.violate("harness:%s:%s" % (os.path.basename(inside_case[-1].filename), inside_case[-1].name), ["unreadable_answer"],
+                        {"note": "the library's answer could not be interpreted"}, {"exception": repr(e)[:300], "where": "%s:%d" % (inside_case[-1].filename, inside_case[-1].lineno)})
+            rc = ctx.finish()
+            sys.exit(rc if rc else 1)
         traceback.print_exc()
         print("MACHINERY-ERROR property=%s: unexpected exception in the harness" % prop)
         sys.exit(2)
